@@ -108,6 +108,8 @@ pub enum Ctx {
     /// a plain thread that owns a current-thread runtime and calls the blocking API from async code driven by it
     /// (only sensible for the timeout variants)
     InCurrentThread,
+    /// spawn_blocking on a second runtime that was built without a time driver (and without an I/O driver)
+    SpawnBlockingBareRt,
 }
 
 #[derive(Debug, Clone, Serialize, Deserialize)]
@@ -275,6 +277,7 @@ pub fn run_order(scn: &BScenario, order: &[usize]) -> BRun {
         let _g = rt.enter();
         rsactor::spawn_with_mailbox_capacity::<BA>(BArgs { log: log.clone(), gates: gates.clone() }, scn.cap)
     };
+    let bare_rt = if scn.callers.iter().any(|c| c.ctx == Ctx::SpawnBlockingBareRt) { Some(tokio::runtime::Builder::new_multi_thread().worker_threads(1).build().unwrap()) } else { None };
     let (res_tx, res_rx) = mpsc::channel::<(usize, usize, u64, BRes)>();
     // one command channel per caller
     let mut cmd_txs: Vec<Option<mpsc::Sender<(usize, BOp)>>> = Vec::new();
@@ -424,6 +427,16 @@ pub fn run_order(scn: &BScenario, order: &[usize]) -> BRun {
                     let _ = res_tx.send((ci, idx, t0.elapsed().as_millis() as u64, res));
                 }));
             }
+            (_, Ctx::SpawnBlockingBareRt) => {
+                let r = aref.clone();
+                let res_tx = res_tx.clone();
+                let op2 = op.clone();
+                let erased = c.erased;
+                let _ = bare_rt.as_ref().unwrap().spawn_blocking(move || {
+                    let res = if erased { do_blocking_erased(&r, &op2) } else { do_blocking(&r, &op2) };
+                    let _ = res_tx.send((ci, idx, t0.elapsed().as_millis() as u64, res));
+                });
+            }
             (_, Ctx::InAsync) => {
                 let r = aref.clone();
                 let res_tx = res_tx.clone();
@@ -492,6 +505,9 @@ pub fn run_order(scn: &BScenario, order: &[usize]) -> BRun {
     let actor_id = aref.identity().id;
     drop(aref);
     rt.shutdown_timeout(Duration::from_millis(200));
+    if let Some(b) = bare_rt {
+        b.shutdown_timeout(Duration::from_millis(200));
+    }
     crate::msched::BT_ACTIVE.store(false, Ordering::SeqCst);
     let (dls, logs, tell_results) = {
         let sink = crate::msched::BT_SINK.lock().unwrap_or_else(|e| e.into_inner());
@@ -903,6 +919,27 @@ pub fn scenarios(thorough: bool) -> Vec<BScenario> {
             BCaller { erased: false, ctx: Ctx::Thread, ops: vec![a(91, Some(0), None)] },
             BCaller { erased: false, ctx: Ctx::Thread, ops: vec![a(2, None, Some(400)), t(3, None, None)] },
             BCaller { erased: true, ctx: Ctx::SpawnBlocking, ops: vec![a(4, None, None)] },
+            BCaller { erased: false, ctx: Ctx::Async, ops: vec![BOp::OpenGate(0)] },
+        ],
+    });
+    // S16: a bounded call from async code on a current-thread runtime while the gate stays closed far beyond its deadline
+    v.push(BScenario {
+        name: "b16-in-current-thread-deadline-held".into(),
+        cap: 2,
+        gates: 1,
+        callers: vec![
+            BCaller { erased: false, ctx: Ctx::InCurrentThread, ops: vec![a(1, Some(0), Some(60))] },
+            BCaller { erased: false, ctx: Ctx::Async, ops: vec![BOp::Wait(1000), BOp::OpenGate(0)] },
+        ],
+    });
+    // S17: bounded calls from spawn_blocking threads of a runtime that has no time driver
+    v.push(BScenario {
+        name: "b17-spawn-blocking-bare-runtime".into(),
+        cap: 2,
+        gates: 1,
+        callers: vec![
+            BCaller { erased: false, ctx: Ctx::SpawnBlockingBareRt, ops: vec![t(1, None, Some(60)), a(2, Some(0), Some(60))] },
+            BCaller { erased: true, ctx: Ctx::SpawnBlockingBareRt, ops: vec![a(3, None, Some(60))] },
             BCaller { erased: false, ctx: Ctx::Async, ops: vec![BOp::OpenGate(0)] },
         ],
     });
